@@ -438,7 +438,11 @@ func (c *BuildCase) ConfigMapFor(root, f string) map[string]any {
 		}
 		sub(sub(m, "deb"), "signature")["key_file"] = filepath.Join(kd, "pgp-primary.sec.asc")
 		sub(sub(m, "rpm"), "signature")["key_file"] = filepath.Join(kd, "pgp-subkey.sec.gpg")
-		sub(sub(m, "apk"), "signature")["key_file"] = filepath.Join(kd, "rsa-a.pkcs1.pem")
+		apkKey := "rsa-a.pkcs1.pem"
+		if len(c.Meta.Name)%2 == 0 {
+			apkKey = "rsa-4096.pkcs8.pem" // 512-byte signatures: a tar block multiple
+		}
+		sub(sub(m, "apk"), "signature")["key_file"] = filepath.Join(kd, apkKey)
 		sub(sub(m, "apk"), "signature")["key_name"] = "verif-test"
 	}
 	if c.DebCompression != "" {
